@@ -20,6 +20,12 @@ var tokens = []string{
 	"\x01", "\x7f", "<b>", "&amp;", "...", ",", ";", ":", "?", "!", "(", ")", "{", "}",
 }
 
+// colonWords: a first word of the form [a-z0-9]+:[a-z0-9]... — what go/ast calls a directive when it directly follows
+// the slashes (//nolint:x).  Behind "// " it is ordinary documentation: times, ratios, URNs, key:value pairs.  ("go:" is
+// the one prefix gengo filters, see isTagText.)  With near misses around the pattern.
+var colonWords = []string{"10:30", "1:1", "0:00", "tz:utc", "urn:job:owner", "key:value", "nolint:unused", "lint:ignore", "a:b", "x:1", "3:4", "todo:later",
+	"12:00:00", "v1:beta", "Note:x", "x:", "a-b:c", "é:x", "http://example.com/a", "golang:x", "1:A", "k:é"}
+
 var tagLines = []string{
 	"+gengo:runtimedoc", "+gengo:deepcopy=false", "+k8s:openapi-gen=true", "+optional", "@deprecated use something else",
 	"+gengo:enum", "@name x", "+", "go:generate echo hi", "+gengo:runtimedoc:x=1", "+\"quoted\"=`v`",
@@ -33,6 +39,10 @@ func isTagText(s string) bool {
 func docText(r *core.RNG, name string, first bool) string {
 	for {
 		var parts []string
+		if r.Chance(12) { // the line STARTS with a directive-looking word (also the first line: no name in front)
+			parts = append(parts, core.Pick(r, colonWords))
+			first = false
+		}
 		if first {
 			switch k := r.Intn(20); {
 			case k < 9:
@@ -230,8 +240,9 @@ func genPackage(r *core.RNG) Input {
 					f.Class, f.Type = "empty", in.Types[hasEmptyNamed].Name
 				case c < 5 && hasEmptyNamed >= 0:
 					f.Type = "*" + in.Types[hasEmptyNamed].Name
-				case c < 9:
-					// a named type of the package: by value (later types only) or behind a pointer / slice
+				case c < 11:
+					// a named type of the package — interface, generic instance, defined scalar/map/func, struct (exported,
+					// unexported, disabled): by value (structs: later types only, no recursive types) or behind a pointer / slice
 					j := r.Intn(n)
 					tt := &in.Types[j]
 					ref := tt.Name
@@ -241,9 +252,11 @@ func genPackage(r *core.RNG) Input {
 					switch {
 					case j == hasEmptyNamed:
 						f.Type = "[]" + ref
-					case j > i && r.Chance(50):
+					case j > i && r.Chance(60):
 						f.Type = ref
 					case tt.Kind == "iface":
+						f.Type = ref
+					case tt.Kind == "other" && r.Chance(70):
 						f.Type = ref
 					default:
 						f.Type = core.Pick(r, []string{"*", "[]", "map[string]"}) + ref
@@ -374,6 +387,31 @@ func fixedCases() []Input {
 		{Types: []Type{ // [[path]] feature
 			{Name: "Obj", Kind: "struct", Doc: doc("Obj some object", "[[doc/b.md]]"), Fields: []Field{{Name: "Name", Class: "ordinary", Type: "string", Doc: doc("Name [[doc/b.md]]")}}},
 		}, Files: map[string]string{"doc/b.md": "# b\n\"file\" content"}},
+		{Types: []Type{ // NON-embedded fields typed by same-package named types of every kind, by value: none of them adds a method
+			{Name: "Job", Kind: "struct", Doc: doc("Job is covered"), Fields: []Field{
+				{Name: "Store", Class: "ordinary", Type: "Store", Doc: doc("Store is an interface of the package")},
+				{Name: "Box", Class: "ordinary", Type: "Box[int]", Doc: doc("Box is an instance of a generic struct")},
+				{Name: "Index", Class: "ordinary", Type: "Index[int]", Doc: doc("Index is an instance of a generic map")},
+				{Name: "Level", Class: "ordinary", Type: "Level", Doc: doc("Level is a defined int")},
+				{Name: "Opts", Class: "ordinary", Type: "opts", Doc: doc("Opts is an unexported struct")},
+				{Name: "Off", Class: "ordinary", Type: "Off", Doc: doc("Off is switched off")},
+				{Name: "Plain", Class: "ordinary", Type: "Plain", Doc: doc("Plain is a covered struct")},
+				{Name: "hidden", Class: "ordinary", Type: "Box[int]"}}},
+			{Name: "Store", Kind: "iface", Under: "interface{ Get() string }", Doc: doc("Store stores")},
+			{Name: "Box", Kind: "struct", Generic: true, Doc: doc("Box boxes"), Fields: []Field{{Name: "V", Class: "ordinary", Type: "P0", Doc: doc("V is the value")}}},
+			{Name: "Index", Kind: "other", Generic: true, Under: "map[P0]int", Doc: doc("Index indexes")},
+			{Name: "Level", Kind: "other", Under: "int", Doc: doc("Level of it")},
+			{Name: "opts", Kind: "struct", Fields: []Field{{Name: "X", Class: "ordinary", Type: "int", Doc: doc("X of opts")}}},
+			{Name: "Off", Kind: "struct", Disabled: true, Doc: doc("Off", "+gengo:runtimedoc=false"), Fields: []Field{{Name: "Y", Class: "ordinary", Type: "int"}}},
+			{Name: "Plain", Kind: "struct", Fields: []Field{{Name: "Z", Class: "ordinary", Type: "Store", Doc: doc("Z again an interface")}}},
+		}},
+		{Types: []Type{ // doc lines that start with a directive-looking word are ordinary text (only go: is filtered)
+			{Name: "Schedule", Kind: "struct", Doc: doc("Schedule describes when the job runs.", "10:30 is the default start time,", "tz:utc unless the owner says otherwise.", "+gengo:x=1"), Fields: []Field{
+				{Name: "Cron", Class: "ordinary", Type: "string", Doc: doc("Cron expression,", "0:00 every day.")},
+				{Name: "Owner", Class: "ordinary", Type: "string", Doc: doc("urn:job:owner of the job")},
+				{Name: "Ratio", Embedded: true, Doc: doc("key:value")}}},
+			{Name: "Ratio", Kind: "other", Under: "float64", Doc: doc("1:1 means equal parts.", "", "nolint:unused is text here, not a directive")},
+		}},
 		{KnownOnly: true, Types: []Type{ // the known finding: promoted field behind a nil embedded pointer
 			{Name: "A", Kind: "struct", Fields: []Field{{Name: "B", Embedded: true, Ptr: true}}},
 			{Name: "B", Kind: "struct", Fields: []Field{{Name: "C", Embedded: true}}},
